@@ -493,7 +493,7 @@ fn build_pair(vm: &mut Vm, variant: &str, amt: u64) -> Uni {
     bd.deploy("lock", "owner", "simplelock");
     let adder = if variant == "adder" { bd.ad("user") } else { Address::zero() };
     // the router deploys the pair: router + router owner get OWNER|PAUSE, `admin` gets ADMIN
-    bd.ok("router", "pair", "init", vec![FIRST.to_vec(), SECOND.to_vec(), a_addr(&bd.ad("router")), a_addr(&bd.ad("owner")),
+    let _ = bd.ok("router", "pair", "init", vec![FIRST.to_vec(), SECOND.to_vec(), a_addr(&bd.ad("router")), a_addr(&bd.ad("owner")),
         a_u64(300), a_u64(50), a_addr(&adder), a_addr(&bd.ad("admin"))], &[]);
     let pair = bd.ad("pair");
     bd.vm.set_roles(&pair, LP, &["ESDTRoleLocalMint", "ESDTRoleLocalBurn"]);
@@ -502,25 +502,27 @@ fn build_pair(vm: &mut Vm, variant: &str, amt: u64) -> Uni {
     let big = BigUint::from(10u64).pow(15);
     bd.fund_all(FIRST, &big);
     bd.fund_all(SECOND, &big);
-    bd.ok("owner", "pair", "addToPauseWhitelist", vec![a_addr(&bd.ad("pauser"))], &[]);
-    bd.ok("owner", "pair", "whitelist", vec![a_addr(&bd.ad("wsc"))], &[]);
-    bd.ok("owner", "pair", "addTrustedSwapPair", vec![a_addr(&bd.ad("fresh_sc")), THIRD.to_vec(), FIRST.to_vec()], &[]);
+    let _ = bd.ok("owner", "pair", "addToPauseWhitelist", vec![a_addr(&bd.ad("pauser"))], &[]);
+    let _ = bd.ok("owner", "pair", "whitelist", vec![a_addr(&bd.ad("wsc"))], &[]);
+    let _ = bd.ok("owner", "pair", "addTrustedSwapPair", vec![a_addr(&bd.ad("fresh_sc")), THIRD.to_vec(), FIRST.to_vec()], &[]);
+    let _ = bd.ok("owner", "pair", "setLockingScAddress", vec![a_addr(&bd.ad("lock"))], &[]);
+    let _ = bd.ok("owner", "pair", "setupFeesCollector", vec![a_addr(&bd.ad("fresh_sc")), a_u64(50_000)], &[]);
     if variant != "nolp" {
-        bd.ok("owner", "pair", "setLpTokenIdentifier", vec![LP.to_vec()], &[]);
+        let _ = bd.ok("owner", "pair", "setLpTokenIdentifier", vec![LP.to_vec()], &[]);
     }
     if variant == "std" {
-        bd.ok("pauser", "pair", "resume", vec![], &[]);
+        let _ = bd.ok("pauser", "pair", "resume", vec![], &[]);
         bd.vm.set_round(10);
         let base = b(1_000_000 + amt);
-        bd.ok("user", "pair", "addLiquidity", vec![a_u64(1), a_u64(1)], &[esdt(FIRST, 0, &base), esdt(SECOND, 0, &(&base * 2u32))]);
+        let _ = bd.ok("user", "pair", "addLiquidity", vec![a_u64(1), a_u64(1)], &[esdt(FIRST, 0, &base), esdt(SECOND, 0, &(&base * 2u32))]);
         bd.vm.set_round(20);
         for r in ROLES {
             bd.ok(r, "pair", "addLiquidity", vec![a_u64(1), a_u64(1)], &[esdt(FIRST, 0, &b(100_000)), esdt(SECOND, 0, &b(200_000))]);
         }
         bd.vm.set_round(30);
-        bd.ok("user", "pair", "swapTokensFixedInput", vec![SECOND.to_vec(), a_u64(1)], &[esdt(FIRST, 0, &b(1000))]);
+        let _ = bd.ok("user", "pair", "swapTokensFixedInput", vec![SECOND.to_vec(), a_u64(1)], &[esdt(FIRST, 0, &b(1000))]);
         bd.vm.set_round(40);
-        bd.ok("user", "pair", "swapTokensFixedInput", vec![FIRST.to_vec(), a_u64(1)], &[esdt(SECOND, 0, &b(1000))]);
+        let _ = bd.ok("user", "pair", "swapTokensFixedInput", vec![FIRST.to_vec(), a_u64(1)], &[esdt(SECOND, 0, &b(1000))]);
         bd.vm.set_round(50);
     }
     bd.n.insert("amt".into(), 1000 + amt % 1000);
@@ -1394,7 +1396,29 @@ impl World {
             }
         }
         if ok {
-            tr.res_ok(n, &key, "-");
+            // who received the rewards of an on-behalf claim?
+            let mut payee = "-".to_string();
+            if class == Class::OnBehalfHub && base_name(e) == "claimRewardsOnBehalf" {
+                let rew: &[u8] = if c == "staking" { FARMING } else if c == "fwlr" { LOCKED } else { REW };
+                let total = |st: &BlockchainState, a: &Address| -> BigUint {
+                    st.accounts.get(&vma(a)).and_then(|x| x.esdt.get_by_identifier(rew))
+                        .map(|d| d.instances.get_instances().values().map(|i| i.balance.clone()).sum()).unwrap_or_default()
+                };
+                let (caller, owner) = (u.addr(role).clone(), u.addr("user").clone());
+                let d_caller = total(self.vm.state(), &caller) > total(&u.snap, &caller);
+                let d_owner = total(self.vm.state(), &owner) > total(&u.snap, &owner);
+                payee = match (d_caller, d_owner) {
+                    (false, true) => "rew=owner".into(),
+                    (true, false) => "rew=caller".into(),
+                    (true, true) => "rew=both".into(),
+                    (false, false) => "rew=none".into(),
+                };
+                if payee != "rew=owner" {
+                    tr.fail("C19", "on_behalf_rules", e, &format!("{key}: rewards of an on-behalf claim went to {payee}, not to the position owner"));
+                }
+                tr.count("branch.on_behalf_rewards_to_owner");
+            }
+            tr.res_ok(n, &key, &payee);
         } else {
             tr.res_err(n);
         }
@@ -1438,7 +1462,9 @@ fn gen(a: &Args, tr: &mut Trace) {
                     let privileged = matches!(*role, "owner" | "admin" | "pauser" | "router");
                     let kind = if constructible {
                         "cell"
-                    } else if (class == Class::Config && !privileged) || class == Class::Never {
+                    } else if (class == Class::Config && !privileged) || class == Class::Never
+                        || (class == Class::UserFunds && *st != "active")
+                    {
                         "cellx" // must be rejected whatever the arguments
                     } else {
                         "nocall"
